@@ -45,7 +45,7 @@ def make_cases(chk):
         if i % 3 == 1:
             # a subtree cut by the public remove_all_descendants (its root stays as a terminal), then new nodes that
             # reuse the freed arena indices
-            ts = ts + [{"op": "cut_and_regrow", "tree": "t", "pick": rng.randrange(8),
+            ts = ts + [{"op": "cut_and_regrow", "tree": "t", "pick": rng.randrange(8), "how": rng.choice(["descendants", "children"]),
                         "regrow": ({"dec": aff_json(*dg(rng, 1, n), n), "t0": aff_json(gen.mat(rng, 1, n), gen.vec(rng, 1), n),
                                     "t1": aff_json(gen.mat(rng, 1, n), gen.vec(rng, 1), n)} if rng.random() < 0.7 else None)}]
         steps = ts + [{"op": "export", "tree": "t"}, {"op": "polyhedra", "tree": "t", "skips": []},
